@@ -232,6 +232,7 @@ class ReaderHarness(object):
         ikw.setdefault('while_bound', max(3, len(script) + 2))
         I = Interp(self.P, **ikw)
         I.open_empty_class_containers = getattr(self, 'open_hooks', ())
+        I.record_compares = getattr(self, 'record_compares', False)
         st = {'k': 0, 'script': script, 'content_calls': [], 'header_values': []}
         I.k1 = st
         header_rxs = {rx for _, rx in R.header_apps}
